@@ -12,6 +12,7 @@ import (
 	"sort"
 	"strconv"
 	"strings"
+	"unicode"
 )
 
 func init() {
@@ -268,6 +269,117 @@ func c20_genC20(repo string) string {
 		panic("isTabOrSpace / isDigit have an unexpected shape")
 	}
 
+	// ---- non-ASCII runes: which predicates of package unicode decide what an identifier rune is
+	// (isIdentifier), what may not follow a number (readNumber), and which functions of the lexer
+	// move the read position (the model's positions are a pure function of the RUNE offset because
+	// readChar alone moves it, one rune at a time)
+	unicodeCalls := func(fd *ast.FuncDecl) []string {
+		var out []string
+		ast.Inspect(fd, func(n ast.Node) bool {
+			if sel, ok := n.(*ast.SelectorExpr); ok {
+				if id, ok := sel.X.(*ast.Ident); ok && id.Name == "unicode" {
+					out = append(out, sel.Sel.Name)
+				}
+			}
+			return true
+		})
+		return out
+	}
+	var identFn, readNumberFn, readIdentFn *ast.FuncDecl
+	posWriters := map[string]bool{}
+	posFields := map[string]bool{"position": true, "nextPosition": true, "column": true, "line": true, "lineStart": true, "ch": true}
+	for _, d := range lf.Decls {
+		fd, ok := d.(*ast.FuncDecl)
+		if !ok || fd.Body == nil {
+			continue
+		}
+		switch fd.Name.Name {
+		case "isIdentifier":
+			identFn = fd
+		case "readNumber":
+			readNumberFn = fd
+		case "readIdentifier":
+			readIdentFn = fd
+		}
+		recv := ""
+		if fd.Recv != nil && len(fd.Recv.List) == 1 && len(fd.Recv.List[0].Names) == 1 {
+			recv = fd.Recv.List[0].Names[0].Name
+		}
+		if recv == "" {
+			continue // New builds the lexer through a composite literal and calls readChar
+		}
+		isPosField := func(e ast.Expr) bool {
+			sel, ok := e.(*ast.SelectorExpr)
+			if !ok {
+				return false
+			}
+			id, ok := sel.X.(*ast.Ident)
+			return ok && id.Name == recv && posFields[sel.Sel.Name]
+		}
+		ast.Inspect(fd.Body, func(n ast.Node) bool {
+			switch x := n.(type) {
+			case *ast.AssignStmt:
+				for _, l := range x.Lhs {
+					if isPosField(l) {
+						posWriters[fd.Name.Name] = true
+					}
+				}
+			case *ast.IncDecStmt:
+				if isPosField(x.X) {
+					posWriters[fd.Name.Name] = true
+				}
+			}
+			return true
+		})
+	}
+	if identFn == nil || readNumberFn == nil || readIdentFn == nil {
+		panic("lexer.isIdentifier / readNumber / readIdentifier not found")
+	}
+	var posWriterNames []string
+	for k := range posWriters {
+		posWriterNames = append(posWriterNames, k)
+	}
+	sort.Strings(posWriterNames)
+	// every other way of indexing the input: functions that mention the rune slice or any
+	// string/byte view of the input (a search on bytes is not a search on runes)
+	lexerFields := []string{}
+	for _, d := range lf.Decls {
+		gd, ok := d.(*ast.GenDecl)
+		if !ok || gd.Tok != token.TYPE {
+			continue
+		}
+		for _, sp := range gd.Specs {
+			ts := sp.(*ast.TypeSpec)
+			st, ok := ts.Type.(*ast.StructType)
+			if !ok || ts.Name.Name != "Lexer" {
+				continue
+			}
+			for _, f := range st.Fields.List {
+				var tb strings.Builder
+				switch t := f.Type.(type) {
+				case *ast.Ident:
+					tb.WriteString(t.Name)
+				case *ast.ArrayType:
+					if id, ok := t.Elt.(*ast.Ident); ok {
+						tb.WriteString("[]" + id.Name)
+					} else {
+						tb.WriteString("[]?")
+					}
+				case *ast.SelectorExpr:
+					if id, ok := t.X.(*ast.Ident); ok {
+						tb.WriteString(id.Name + "." + t.Sel.Name)
+					}
+				default:
+					tb.WriteString("?")
+				}
+				for _, n := range f.Names {
+					lexerFields = append(lexerFields, n.Name+":"+tb.String())
+				}
+			}
+		}
+	}
+	sort.Strings(lexerFields)
+
 	var sb strings.Builder
 	sb.WriteString("namespace Risor.Generated.C20\n\n")
 	sb.WriteString("/-- token/token.go `keywords`, sorted by identifier: (identifier, token type) -/\n")
@@ -296,6 +408,17 @@ func c20_genC20(repo string) string {
 	fmt.Fprintf(&sb, "def blankChars : List Nat := %s\n\n", c20_leanNatList(blanks))
 	sb.WriteString("/-- lexer.isDigit: inclusive bounds -/\n")
 	fmt.Fprintf(&sb, "def digitBounds : Nat × Nat := (%d, %d)\n\n", digitLo, digitHi)
+	sb.WriteString("/-- the predicates of package unicode called by lexer.isIdentifier (what an identifier rune is, besides `_`) -/\n")
+	fmt.Fprintf(&sb, "def identClasses : List String := %s\n\n", c20_leanStrList(unicodeCalls(identFn)))
+	sb.WriteString("/-- the predicates of package unicode called by lexer.readNumber (what may not follow a number) -/\n")
+	fmt.Fprintf(&sb, "def numberTrailClasses : List String := %s\n\n", c20_leanStrList(unicodeCalls(readNumberFn)))
+	sb.WriteString("/-- the names of package unicode used by lexer.readIdentifier (the bound above which a rune after an identifier is an error) -/\n")
+	fmt.Fprintf(&sb, "def identEndNames : List String := %s\n\n", c20_leanStrList(unicodeCalls(readIdentFn)))
+	sb.WriteString("/-- the methods of Lexer that assign position, nextPosition, column, line, lineStart or ch -/\n")
+	fmt.Fprintf(&sb, "def posWriters : List String := %s\n\n", c20_leanStrList(posWriterNames))
+	sb.WriteString("/-- the fields of Lexer with their types (name:type), sorted: the input is held as runes only -/\n")
+	fmt.Fprintf(&sb, "def lexerFields : List String := %s\n\n", c20_leanStrList(lexerFields))
+	sb.WriteString(c20_unicodeTables())
 	sb.WriteString("end Risor.Generated.C20\n")
 	return sb.String()
 }
@@ -306,4 +429,53 @@ func c20_leanNatList(xs []int) string {
 		parts[i] = strconv.Itoa(x)
 	}
 	return "[" + strings.Join(parts, ", ") + "]"
+}
+
+func c20_leanStrList(xs []string) string {
+	parts := make([]string, len(xs))
+	for i, x := range xs {
+		parts[i] = strconv.Quote(x)
+	}
+	return "[" + strings.Join(parts, ", ") + "]"
+}
+
+// c20_unicodeTables prints the range tables of Go's package unicode (the one this toolchain
+// compiles risor with) for the categories the lexer asks about: L (IsLetter), Nd (IsDigit),
+// N (IsNumber), as (lo, hi, stride) triples in chunks of 64.
+func c20_unicodeTables() string {
+	var sb strings.Builder
+	one := func(name, doc string, t *unicode.RangeTable) {
+		type tr struct{ lo, hi, st uint32 }
+		var all []tr
+		for _, r := range t.R16 {
+			all = append(all, tr{uint32(r.Lo), uint32(r.Hi), uint32(r.Stride)})
+		}
+		for _, r := range t.R32 {
+			all = append(all, tr{r.Lo, r.Hi, r.Stride})
+		}
+		var chunks []string
+		for i := 0; i < len(all); i += 64 {
+			j := i + 64
+			if j > len(all) {
+				j = len(all)
+			}
+			cn := fmt.Sprintf("%s%d", name, i/64)
+			chunks = append(chunks, cn)
+			fmt.Fprintf(&sb, "def %s : List (Nat × Nat × Nat) := [\n", cn)
+			for k := i; k < j; k++ {
+				sep := ","
+				if k == j-1 {
+					sep = ""
+				}
+				fmt.Fprintf(&sb, "  (%d, %d, %d)%s\n", all[k].lo, all[k].hi, all[k].st, sep)
+			}
+			sb.WriteString("]\n")
+		}
+		fmt.Fprintf(&sb, "/-- %s: (lo, hi, stride), Unicode %s -/\n", doc, unicode.Version)
+		fmt.Fprintf(&sb, "def %s : List (Nat × Nat × Nat) := %s\n\n", name, strings.Join(chunks, " ++ "))
+	}
+	one("letterRanges", "unicode.Letter (category L), the table behind unicode.IsLetter", unicode.Letter)
+	one("digitRanges", "unicode.Digit (category Nd), the table behind unicode.IsDigit", unicode.Digit)
+	one("numberRanges", "unicode.Number (category N), the table behind unicode.IsNumber", unicode.Number)
+	return sb.String()
 }
